@@ -133,7 +133,25 @@ def gen(R, tier):
         li = head + '}.{' + re.sub(r'\[([!$<>])(\w*)\]', lambda mo: '[%s%s]' % (mo.group(1), R.choice(['', 'p', 'q7', 'Zz', mo.group(2)])), tail)
         if li != s:
             feats.add('label_insensitive_relabelled')
-    return dict(legacy_false_ok=unambiguous, input_li=li, input=s, twin=twin, model=m.to_json(), nshared=info['nshared'], natoms=info['natoms'],
+    model = m
+    natoms = info['natoms']
+    if R.chance(0.12):
+        # a counter ion: an isolated single-atom bead attached by an order-0 edge, written after the fragments
+        # that share atoms
+        ion = R.choice(['[Cl-]', '[F-]', '[Br-]'])
+
+        def with_ion(text):
+            head, tail = text.split('}.{', 1)
+            return head + '.[#ION]}.{' + tail[:-1] + ',#ION=' + ion + '}'
+        s, twin = with_ion(s), with_ion(twin)
+        if li is not None:
+            li = with_ion(li)
+        import copy as _copy
+        model = _copy.deepcopy(m)
+        model.add_atom(ion[1:-2], charge=-1)
+        natoms += 1
+        feats.add('isolated_ion_bead_after_shared_atoms')
+    return dict(legacy_false_ok=unambiguous, input_li=li, input=s, twin=twin, model=model.to_json(), nshared=info['nshared'], natoms=natoms,
                 nfr=info['nfr'], features=sorted(feats))
 
 
